@@ -38,7 +38,7 @@ impl<'a> Reader<'a> {
             result.push(c);
             self.begin += 1;
             read_something = true;
-            if c == '\r' && self.peek() == b'\n' {
+            if c == '\r' && self.peek() == b'\n' && !self.eof {
                 result.pop().unwrap();
                 self.begin += 1;
                 break;
